@@ -40,7 +40,8 @@ using JSON = nlohmann::ordered_json;
 
 namespace {
 
-const char* const kKnownDnd = "dnd-window-drops-change";
+const char* const kKnownOwn = "reexecution-leaves-children-done";        // the re-executed operation's own result changed
+const char* const kKnownCoparent = "save-window-drops-coparent-change";  // another parent's pending change was flushed while the result was being saved
 
 // ---------------------------------------------------------------------------------------------------------------
 // small helpers over RSForm
@@ -220,10 +221,11 @@ struct World final : ccl::types::Observer {
   std::unique_ptr<OSSchema> oss{};
   bool recording{false};
   bool inWindow{false};  // between a result write and the next OSS notification: OSS holds its do-not-disturb guard
+  const MemDoc* windowDoc{nullptr};  // the result document written in the current window
   uint64_t clock{0};
 
   std::map<const MemDoc*, std::string> lastSeen{};  // formal content at the last publication of the document
-  struct Obl { uint64_t ts; bool window; std::string why; };
+  struct Obl { uint64_t ts; bool window; bool own; std::string why; };
   std::map<PictID, std::vector<Obl>> pend{};
   struct Wr { uint64_t ts; MemDoc* doc; };
   std::vector<Wr> writes{};
@@ -256,13 +258,13 @@ struct World final : ccl::types::Observer {
     if (inWindow) ++windowAnnouncements;
     for (const auto c : childrenOf(pid.value())) {
       const auto* h = oss->Src()(c);
-      if (h != nullptr && !h->empty()) pend[c].push_back(Obl{clock, inWindow, "parent " + std::to_string(pid.value())});
+      if (h != nullptr && !h->empty()) pend[c].push_back(Obl{clock, inWindow, inWindow && &d == windowDoc, "parent " + std::to_string(pid.value())});
     }
   }
   void onWrite(MemDoc& d) {
     ++clock;
     writes.push_back(Wr{clock, &d});
-    if (recording) inWindow = true;
+    if (recording) { inWindow = true; windowDoc = &d; }
   }
 };
 
@@ -525,7 +527,7 @@ struct Runner {
   World& w;
   int docSerial{0};
   int markerSerial{0};
-  bool toleratedKnown{false};
+  std::string toleratedKnown{};
   // statistics for labels / the non-trivial rule
   struct Ev { int kind; PictID pid; };  // 0 = formal edit on pid's document, 1 = successful execution of pid
   std::vector<Ev> events;
@@ -665,9 +667,17 @@ struct Runner {
         return pbt::fail("stale-shown-done", "operation " + std::to_string(p.id) + " has a stored result, an announced change altered the formal content of " + why
                          + " after its last execution, and it reports done" + at);
       }
-      if (pbt::known(kKnownDnd)) { toleratedKnown = true; c.count("known-dnd-window-tolerated"); continue; }
-      return pbt::fail("stale-after-exec-window", "operation " + std::to_string(p.id) + " has a stored result; a change of " + it->second.front().why
-                       + " was announced while another operation's result was being saved, and it still reports done" + at);
+      bool own = false, coparent = false; std::string whyOwn, whyCo;
+      for (auto& o : it->second) { if (o.own) { own = true; whyOwn = o.why; } else { coparent = true; whyCo = o.why; } }
+      if (own && !pbt::known(kKnownOwn))
+        return pbt::fail("stale-child-after-reexecution", "operation " + std::to_string(p.id) + " has a stored result; " + whyOwn
+                         + " was re-executed, its source manager announced the changed result, and the child still reports done" + at);
+      if (coparent && !pbt::known(kKnownCoparent))
+        return pbt::fail("stale-child-after-coparent-flush", "operation " + std::to_string(p.id) + " has a stored result; a pending change of " + whyCo
+                         + " was announced while another operation's result was being saved, and it still reports done" + at);
+      if (toleratedKnown.empty()) toleratedKnown = own ? kKnownOwn : kKnownCoparent;
+      c.count(own ? "known-tolerated:reexecution-leaves-children-done" : "known-tolerated:save-window-drops-coparent-change");
+      continue;
     }
     return pbt::pass();
   }
@@ -707,6 +717,8 @@ struct Runner {
     const auto want = rowsOf(*expect, -1);
     const auto got = rowsOf(dr->schema, 1);
     c.count("checked:exec-result");
+    if (eq != nullptr && !eq->empty()) c.count("checked:exec-result-with-equation-table");
+    if (want.size() < d1->schema.Core().size() + d2->schema.Core().size()) c.count("checked:exec-result-with-identified-constituents");
     CHECK(got == want, "exec-result", "tracked part of the result of " + std::to_string(pid) + " = " + rowsStr(got) + " but synthesis of the parents' current schemas = " + rowsStr(want) + after);
     return pbt::pass();
   }
@@ -1133,7 +1145,7 @@ Verdict propHistory(Ctx& c) {
   c.count("announcements", static_cast<int64_t>(env.w.announcements));
   c.count("announcements-altering-attached", static_cast<int64_t>(env.w.alteringAnnouncements));
   c.count("announcements-in-save-window", static_cast<int64_t>(env.w.windowAnnouncements));
-  if (r.toleratedKnown) return pbt::excluded(kKnownDnd);
+  if (!r.toleratedKnown.empty()) return pbt::excluded(r.toleratedKnown);
   return pbt::pass();
 }
 
@@ -1141,7 +1153,7 @@ Verdict propHistory(Ctx& c) {
 
 int main(int argc, char** argv) {
   std::vector<pbt::Prop> props;
-  props.push_back({"history", propHistory, 300, 2000, false, false,
+  props.push_back({"history", propHistory, 250, 2000, false, false,
                    "histories of 3-25 OSS operations; non-trivial = edit/execute child/edit again/execute grandchild, or load with permuted items, or an executed diamond"});
   return pbt::main(argc, argv, "C19", props);
 }
